@@ -307,6 +307,23 @@ class CallGraph:
         if not init:
             return
         k = init.get('k')
+        if k == 'cv' and g.get('const') and init.get('ty', {}).get('k') == 'struct':
+            # a constant table of a named struct type (a template copied into an object of that type): the function
+            # addresses it holds are what the slots (struct, offset) may contain, exactly like stores into those slots
+            name = init['ty']['s'].lstrip('%').split(' = ')[0]
+            sd = self.lib.structs.get(name)
+            if sd and len(sd['fields']) == len(init['elems']):
+                rest = []
+                for fd, e in zip(sd['fields'], init['elems']):
+                    r = _strip(e) if isinstance(e, dict) and e.get('k') in ('g', 'ce') else e
+                    if isinstance(r, dict) and r.get('k') == 'g' and r.get('fn'):
+                        self.slot_stores[self._norm((name, fd['off']))].add(r['v'])
+                        self.address_taken[r['v']].append((None, g['name'], 'constant table'))
+                    else:
+                        rest.append(e)
+                for e in rest:
+                    self._scan_init(g, e)
+                return
         if k == 'g' and init.get('fn'):
             self.escapes.append((None, g['name'], init['v']))
         elif k in ('cv',):
